@@ -288,7 +288,11 @@ class PlainQuantity(Generic[MagnitudeT], PrettyIPython, SharedRegistryObject):
         if self_base.dimensionless:
             return hash(self_base.magnitude)
 
-        return hash((self_base.__class__, self_base.magnitude, self_base.units))
+        # Hash the dimensionality, not the units: quantities that compare equal may
+        # differ in dimensionless root units (1 hertz == 1 becquerel == 1 count/second).
+        return hash(
+            (self_base.__class__, self_base.magnitude, self_base.dimensionality)
+        )
 
     @property
     def magnitude(self) -> MagnitudeT:
